@@ -252,7 +252,7 @@ func checkC02(p *Program, r *Report) {
 		})
 	}
 	r.Floor("C02.exhaustive", 6)
-	r.Floor("C02.canon", 3)
+	r.Floor("C02.canon", 2)
 
 	c02guards(p, r, scope)
 	c02padding(p, r)
